@@ -168,6 +168,8 @@ def _mk(A, directed, W=None, w=None):
 #  a second alphabet with a link of length exactly 0 (legal: zero lags,
 #  coincident nodes); used by a part of the wund / wdir cases
 ATTR_VALUES_ZERO = (0.0, 1.0, 2.5)
+#  a third one with a negative value, for the strength-type measures only
+ATTR_VALUES_SIGNED = (-1.0, 1.0, 2.5)
 
 
 def _weights_from_code(A, directed, code, values=None):
@@ -633,7 +635,7 @@ def _check_all(acc, A, directed, groups):
         _check_nsi(acc, net, A, directed)
 
 
-def _check_weighted(acc, A, directed, W, w=None, big=False):
+def _check_weighted(acc, A, directed, W, w=None, big=False, signed=False):
     from pyunicorn.core import Network
     net = _mk(A, directed, W, w)
     # the attribute matrix as the library hands it to the strength, motif
@@ -662,6 +664,13 @@ def _check_weighted(acc, A, directed, W, w=None, big=False):
               [a + b for a, b in zip(nin, nout)] if directed else nin)
     acc.check("nsi_indegree[key]", lambda: net.nsi_indegree("w"), nin)
     acc.check("nsi_outdegree[key]", lambda: net.nsi_outdegree("w"), nout)
+    if signed:
+        # negative values are legal for an attribute (e.g. correlations) and
+        # for the strengths above; lengths, PageRank weights and the motif
+        # formulas are not defined for them
+        acc.ex("path / spectral / motif measures with a negative link "
+               "attribute (not defined)")
+        return
     for kind in G.MOTIFS:
         if la is None:
             acc.ex("weighted motif clustering: link_attribute already "
@@ -1047,26 +1056,32 @@ def fam_dir(case):
 def fam_wund(case):
     n, mask, code = case[:3]
     zero = len(case) > 3 and case[3] == "zero"
+    signed = len(case) > 3 and case[3] == "signed"
+    vals = ATTR_VALUES_ZERO if zero else (
+        ATTR_VALUES_SIGNED if signed else None)
     A = adj(n, False, mask).tolist()
-    W = _weights_from_code(A, False, code, ATTR_VALUES_ZERO if zero else None)
-    acc = Acc("undirected" + ("+zero-length" if zero else ""),
+    W = _weights_from_code(A, False, code, vals)
+    acc = Acc("undirected" + ("+zero-length" if zero else "") + (
+        "+negative" if signed else ""),
               "undirected n=%d mask=%d attr-code=%d%s" % (
-                  n, mask, code, " values %s" % (ATTR_VALUES_ZERO,)
-                  if zero else ""))
-    _check_weighted(acc, A, False, W)
+                  n, mask, code, " values %s" % (vals,) if vals else ""))
+    _check_weighted(acc, A, False, W, signed=signed)
     return acc.result(trivial=(mask == 0))
 
 
 def fam_wdir(case):
     n, mask, code = case[:3]
     zero = len(case) > 3 and case[3] == "zero"
+    signed = len(case) > 3 and case[3] == "signed"
+    vals = ATTR_VALUES_ZERO if zero else (
+        ATTR_VALUES_SIGNED if signed else None)
     A = adj(n, True, mask).tolist()
-    W = _weights_from_code(A, True, code, ATTR_VALUES_ZERO if zero else None)
-    acc = Acc("directed" + ("+zero-length" if zero else ""),
+    W = _weights_from_code(A, True, code, vals)
+    acc = Acc("directed" + ("+zero-length" if zero else "") + (
+        "+negative" if signed else ""),
               "directed n=%d mask=%d attr-code=%d%s" % (
-                  n, mask, code, " values %s" % (ATTR_VALUES_ZERO,)
-                  if zero else ""))
-    _check_weighted(acc, A, True, W)
+                  n, mask, code, " values %s" % (vals,) if vals else ""))
+    _check_weighted(acc, A, True, W, signed=signed)
     return acc.result(trivial=(mask == 0))
 
 
@@ -1325,6 +1340,8 @@ def run(ctx):
                              orbits=True)
     cases += [c + ["zero"] for c in _weighted_cases(
         [g for n in range(2, 5) for g in iso(n, False)])]
+    cases += [c + ["signed"] for c in _weighted_cases(
+        [g for n in range(2, 5) for g in iso(n, False)])]
     ctx.explore("wund", cases, desc="every assignment of %s to the links of "
                 "%s graphs on 2..4 nodes; iso(5)%s: one assignment per "
                 "isomorphism class of attributed graphs" % (
@@ -1335,6 +1352,8 @@ def run(ctx):
     cases = _weighted_cases(dg)
     cases += _weighted_cases(iso(4, True), 5 if thorough else 3, orbits=True)
     cases += [c + ["zero"] for c in _weighted_cases(
+        [g for n in range(2, 4) for g in iso(n, True)])]
+    cases += [c + ["signed"] for c in _weighted_cases(
         [g for n in range(2, 4) for g in iso(n, True)])]
     ctx.explore("wdir", cases, desc="every assignment on all labelled "
                 "directed graphs on 2..3 nodes; iso(4) with <= %d links: one "
